@@ -104,6 +104,32 @@ def make_cases(tier, seed):
         for rec in leaves:
             cases.append((rec, conts))
         nrand = 60000
+    # the edges of the number universe (ints up to 2^31 - 1, floats up to 2^27): comparisons, approximate equality with
+    # the default and with explicit tolerances, divisibility - never a range with huge bounds (see gen.INTS_HUGE)
+    huge = gen.INTS_HUGE + [-x for x in gen.INTS_HUGE[:3]] + [16777216.5, 134217000.0, -134217000.125, 1000000.5, 0, 1, 2.0, 0.5]
+    for _ in range(nrand // 12):
+        fn = rng.choice(["equal_to", "not_equal_to", "less_than", "greater_than", "less_than_or_equal_to",
+                         "greater_than_or_equal_to", "equal_to_approx", "equal_to_approx", "equal_to_approx", "factor_of",
+                         "has_factor", "in_", "not_in", "in_range"])
+        v = rng.choice(huge)
+        if fn == "equal_to_approx":
+            acts, akw = rng.choice([([v], {}), ([v, rng.choice([0.5, 1, 2, 0.125, 100])], {}),
+                                    ([v], {"tolerance": rng.choice([1, 0.125, 1700000000, 0, -1])})])
+        elif fn in ("in_", "not_in"):
+            acts, akw = [[v, rng.choice(huge)]], {}
+        elif fn == "in_range":
+            acts, akw = [rng.randint(-3, 3), rng.randint(0, 9)], {}
+        elif fn in ("factor_of", "has_factor"):
+            acts, akw = [rng.choice([v, 2, 8, 0.5, 100, 17])], {}
+        else:
+            acts, akw = [v], {}
+        rec = {"datum": "value", "pre": "none", "fn": fn, "actuals": acts, "akw": akw}
+        near = [v, v + 1 if isinstance(v, int) and abs(v) < 2 ** 31 - 2 else v, -v, rng.choice(huge), rng.choice(huge),
+                float(v) if isinstance(v, int) and abs(v) < 2 ** 27 else 3.0, "a", None]
+        if fn == "in_range":
+            near = [x for x in near if isinstance(x, int) or x is None or isinstance(x, str)] + [2, 2.0, 2.5]
+        rng.shuffle(near)
+        cases.append((rec, [near[:5], {"a": near[0], "b": near[1], 1: near[2]}]))
     for _ in range(nrand):
         rec = gen.leaf_recipe(rng)
         docs = [gen.document(rng, depth=rng.choice([1, 2, 2, 3]), strish=0.6) for _ in range(2)]
